@@ -863,6 +863,12 @@ pub fn check_igmp(ck: &mut Ck) -> Result<(), Failure> {
         let clause = if std::mem::discriminant(&h.igmp_type) != std::mem::discriminant(&eh.igmp_type) { "message-kind" } else { "field-values" };
         ck.bad(E, L, clause, kn, format!("expected {:?}, got {:?}", eh, h))?;
     }
+    {
+        // the group address helpers: a general query is the one with the all-zero address (RFC 2236 2.4)
+        let g = igmp::GroupAddress::new(m.b47);
+        let ok = g.is_zero() == (m.b47 == [0u8; 4]) && <[u8; 4]>::from(g) == m.b47 && std::net::Ipv4Addr::from(g).octets() == m.b47 && igmp::GroupAddress::from(std::net::Ipv4Addr::from(m.b47)) == g && igmp::GroupAddress::from(m.b47) == g;
+        ensure!(ck, ok, "GroupAddress", L, "field-values", kn, "helpers of the group address {:?}: is_zero() = {}", m.b47, g.is_zero());
+    }
     let rest_len = b.len() - m.header_len;
     ensure!(ck, sub_at(b, rest, m.header_len, rest_len), E, L, "split", kn, "expected rest at {} len {}, got {}", m.header_len, rest_len, where_is(b, rest));
     ensure!(ck, h.header_len() == m.header_len, "IgmpHeader::header_len", L, "split", kn, "expected {}, got {}", m.header_len, h.header_len());
